@@ -53,9 +53,9 @@ var c18Variants = map[string]validator.Rule{
 }
 
 func c18Run(x *core.Ctx) {
-	ns := 24
+	ns := 60
 	if !x.Quick() {
-		ns = 470
+		ns = 1200
 	}
 	r := x.Rand(uint64(x.Shard))
 	rn := &model.Renderer{}
